@@ -60,6 +60,29 @@ async def try_restore(root, key, files, cache_dir, tag):
     return 'ok', None
 
 
+def cli_restore(root, key_file, files, tag):
+    """the same restore through the COMMAND LINE (a child interpreter running replicat.__main__.main): -> 'failed' (non-zero exit status),
+    'ok' (status 0 and every file restored exactly) or 'WRONG' (status 0 - success reported - with different or missing content)"""
+    import subprocess
+    import sys as _sys
+    out = root / f'cliout_{tag}'
+    code = ("import sys, time; sys.path.insert(0, %r); time.sleep = lambda s: None; import replicat.__main__ as m; "
+            "sys.argv = ['replicat', 'restore', '-r', %r, '--no-cache', '-q', '-p', 'pw'%s, %r]; m.main()"
+            % (lib.REPO, str(root / 'work'), (", '-K', %r" % str(key_file)) if key_file else '', str(out)))
+    try:
+        r = subprocess.run([_sys.executable, '-c', code], capture_output=True, timeout=120, cwd=str(root))
+        status = r.returncode
+    except subprocess.TimeoutExpired:
+        return 'failed', {'status': 'timeout'}
+    if status != 0:
+        return 'failed', {'status': status}
+    for k, v in files.items():
+        rp = lib.restored_path(out, k)
+        if not rp.exists() or rp.read_bytes() != v:
+            return 'WRONG', {'file': os.path.basename(k), 'exit_status': 0, 'stderr': r.stderr.decode('utf-8', 'replace')[-200:]}
+    return 'ok', None
+
+
 def corruptions(objects, rnd, tier):
     """yield (description, mutate(workdir)) for every object x corruption class"""
     names = sorted(objects)
@@ -130,6 +153,20 @@ def main():
                         outcomes[st] += 1
                     if len(samples) < 3:
                         samples.append({'encrypted': encrypted, 'corruption': desc, 'cache': cache_state, 'outcome': st})
+                    if cache_state == 'none' and i % 7 == 0:
+                        # what the USER sees: the process status of `replicat restore` on the same damaged repository
+                        cases += 1
+                        key_file = None
+                        if key is not None:
+                            key_file = root / 'key.json'
+                            key_file.write_bytes(Repository(Local(root / 'work'), concurrent=1, quiet=True, cache_directory=None).serialize(key))
+                        st2, detail2 = cli_restore(root, key_file, files, f'{i}')
+                        shutil.rmtree(root / f'cliout_{i}', ignore_errors=True)
+                        if st2 == 'WRONG':
+                            failures.append({'id': f'cli_corrupt{cases}', 'class': None, 'case': {'encrypted': encrypted, 'corruption': desc, 'via': 'command line'},
+                                             'detail': dict(detail2, problem='the command exited with status 0 (success) but the content differs')})
+                        else:
+                            outcomes[{'failed': 'raised', 'ok': 'ok'}[st2]] += 1
     lib.emit({'status': 'ok', 'cases': cases, 'distinct': cases, 'failures': failures[:10], 'samples': samples, 'outcomes': outcomes,
               'exhaustive': False, 'reproduced': bool(failures)})
 
